@@ -257,8 +257,12 @@ def mux_history(rng, cid, cfg=None, nv=None, na=None, bframes=None, rejects=0, f
     if fin in (0, 1):
         post = rng.range(0, 3) if post is None else post
         for _ in range(post):
-            k = rng.below(4)
-            if k == 0:
+            k = rng.below(6)
+            if k == 4:
+                c.o("ea", hx(audio_frame(rng, "aac-lc")), "400")
+            elif k == 5:
+                c.o("ev", hx(video_delta(rng, codec)), "21")
+            elif k == 0:
                 c.o("wv", fb(1e6), hx(video_delta(rng, codec)), 0)
             elif k == 1:
                 c.o("wa", fb(1e6), hx(audio_frame(rng, "aac-lc")))
@@ -946,7 +950,7 @@ def fam_reject_gap(rng, n, prefix):
         c = Case("%s%d" % (prefix, i), "mux")
         emit_cfg(c, cfg, rng)
         t0 = rng.choice([0.0, 0.5, 10.0])
-        g2 = rng.choice([0.04, 1.0, lim - 1.0, lim - 0.0001, lim + 0.0001, lim + 1.0, 50000.0, 90000.0])
+        g2 = rng.choice([0.04, 1.0, lim - 1.0, lim - 0.0001, lim + 0.0001, lim + 1.0, 50000.0, 90000.0, lim, lim, (2**32 - 1) / 90000.0])
         g1 = g2 * rng.choice([0.25, 0.5, 0.9]) if rng.chance(4, 5) else g2 + 1.0
         track = rng.choice(["a", "a", "v"])
         c.o("wv", fb(t0), hx(video_key(rng, codec)), 1)
@@ -1018,7 +1022,12 @@ def fam_encode_paths(rng, n, prefix):
                 c.o("ea", hx(rng.bytes(rng.range(0, 9))) or "-", "%x" % rng.choice([1024, 960]))
             else:
                 c.o("wv", fb(rng.choice([0.0, 0.5, 2.0, 10.0])), hx(video_delta(rng, codec)), 0)
-        c.o("fin", rng.choice([0, 0, 3]))
+        fin = rng.choice([0, 0, 3])
+        c.o("fin", fin)
+        if fin == 0 and rng.chance(1, 2):
+            # convenience calls after finish: rejected, and with the same error kind on every equivalent path
+            c.o("ea", hx(audio_frame(rng, "aac-lc")), "400")
+            c.o("ev", hx(video_delta(rng, codec)), "21")
         out.append(c)
     return out
 
